@@ -2,6 +2,7 @@
 //
 //	plan  <cap> <pool> <hist> <op>        => seq=<sites of the whole op> res= pre= post= vis=
 //	crash <cap> <pool> <hist> <op> <k>    => at= pre= post= rec= vis= acc= v1= v2=
+//	new   <cap> <pool>                    => d0= d1= d2=   (file.New dies at its MkdirAll, then a second file.New)
 //	visit <cap> <pool> <hist> <op> <k> <j> => vis= started= pre= post= fin=   (walk interleaved with the operation)
 //
 // `crash … k`: the history runs on a scratch directory; the operation under test then runs with a
@@ -21,6 +22,9 @@ import (
 	"strconv"
 	"strings"
 
+	"github.com/inbucket/inbucket/v3/pkg/config"
+	"github.com/inbucket/inbucket/v3/pkg/extension"
+	"github.com/inbucket/inbucket/v3/pkg/storage/file"
 	"github.com/inbucket/inbucket/v3/pkg/verifhook"
 	"verifharness/cmd/c11/fsd"
 	"verifharness/vh"
@@ -29,7 +33,7 @@ import (
 type crashSig struct{}
 
 func mutationSite(site string) bool {
-	return strings.HasPrefix(site, "file.") && !strings.HasPrefix(site, "file.visit.") && site != "file.add.idretry"
+	return strings.HasPrefix(site, "file.") && !strings.HasPrefix(site, "file.visit.") && !strings.HasPrefix(site, "file.new.") && site != "file.add.idretry"
 }
 
 // runOp runs one operation; with target > 0 it dies at the target-th mutation point.
@@ -198,7 +202,52 @@ func truncLens(n int, thorough bool) []int {
 	return ls
 }
 
+// newCrash: file.New on a path that does not exist yet dies at its MkdirAll (nothing, or only an outer
+// part of the chain path/../mail exists); a second file.New must then build a working empty store.
+func newCrash(cap int) []string {
+	out := []string{}
+	for depth := 0; depth <= 2; depth++ {
+		root := fsd.Scratch("c11n")
+		base := filepath.Join(root, "a", "b") // the configured path; mail lives in base/mail
+		at := "no-point"
+		func() {
+			verifhook.Set(func(site, arg string) {
+				if site == "file.new.mkdir" {
+					at = "new.mkdir"
+					panic(crashSig{})
+				}
+			})
+			defer verifhook.Set(nil)
+			defer func() {
+				if r := recover(); r != nil {
+					if _, ok := r.(crashSig); !ok {
+						panic(r)
+					}
+				}
+			}()
+			file.New(config.Storage{Params: map[string]string{"path": base}, MailboxMsgCap: cap}, extension.NewHost())
+		}()
+		// the part of MkdirAll(base/mail) that happened before the process died
+		switch depth {
+		case 1:
+			os.MkdirAll(filepath.Join(root, "a"), 0o770)
+		case 2:
+			os.MkdirAll(base, 0o770)
+		}
+		st, vs := recovered(base, cap, nil)
+		out = append(out, fmt.Sprintf("d%d=%s/%s/%s/%s", depth, at, st, vs, accepts(base, cap, make([][]string, len(fsd.Pool())), 0)))
+		os.RemoveAll(root)
+	}
+	return out
+}
+
 func exec(kind string, in []string) []string {
+	if kind == "new" {
+		if !fsd.CheckPool(in[1]) {
+			return []string{"POOL-DIFFERS"}
+		}
+		return newCrash(vh.AtoI(in[0]))
+	}
 	sc, ok := setup(in)
 	if !ok {
 		return []string{"POOL-DIFFERS"}
